@@ -3,8 +3,8 @@ package proxysim
 import (
 	"encoding/json"
 
-	"github.com/ozontech/seq-db/verifsim"
 	"fmt"
+	"github.com/ozontech/seq-db/verifsim"
 	"os"
 	"runtime"
 	"strings"
